@@ -107,6 +107,8 @@ theorem applyOp_poi {c : Sys} (h : Poi none (view c.s)) (op : COp) : Poi none (v
   | setReady _ => rw [view_applyOp_env _ _ trivial]; exact h
   | setFlush _ => rw [view_applyOp_env _ _ trivial]; exact h
   | fault _ => rw [view_applyOp_env _ _ trivial]; exact h
+  | faultSkip _ => rw [view_applyOp_env _ _ trivial]; exact h
+  | selfWake _ => rw [view_applyOp_env _ _ trivial]; exact h
   | take _ => rw [view_applyOp_env _ _ trivial]; exact h
   | advance _ => rw [view_applyOp_env _ _ trivial]; exact h
 
